@@ -28,22 +28,22 @@ CLAIMED = {
  'C04': dict(text=T("snapshot ids are strictly increasing and exactly the inhabited instants, per-snapshot counts equal the number of present pairs, dict form, avg_number_of_nodes (C04_ids, C04_count, C04_count_is_presence, C04_all, C04_avg).") , design="DESIGN.md 5 C04"),
  'C05': dict(text=T("stream sorted and duplicate-free, '+' iff appearance, '-' sound, runs of >= 3 instants closed (C05_sorted_nodup, C05_plus, C05_minus_sound, C05_closed_partial); replaying the stream reconstructs presence whenever all runs of >= 2 instants are closed (C05_replay_partial).",
                      "closure of 2-instant runs and replay in their presence: C05_closed_refuted, C05_replay_refuted (witness 18,19; K-C05-1)."), design="DESIGN.md 5 C05"),
- 'C06': dict(text=T("window errors/default, class, presence = window AND source presence, nodes+attributes, the slice is Good, WF and WFG (all invariants behind C02-C05), slices compose at presence level (C06_window, C06_presence, C06_nodes, C06_slice_good, C06_slice_wellformed, C06_compose).",
-                     None, "source unchanged (aliasing) and composition of the remaining observables (stream, ids) are checked by the oracle."), design="DESIGN.md 5 C06"),
+ 'C06': dict(text=T("window errors/default, class, presence = window AND source presence, nodes+attributes, the slice is Good, WF and WFG (all invariants behind C02-C05), slicing a slice = slicing by the intersection of the windows for presence, snapshot ids, per-snapshot counts, node set and node attributes, empty when the windows do not meet (C06_window, C06_presence, C06_nodes, C06_slice_good, C06_slice_wellformed, C06_compose, C06_compose_ids, C06_compose_counts, C06_compose_nodes, C06_compose_disjoint).",
+                     None, "source unchanged (aliasing: purity stamp + re-observation) and the order of events inside one instant of a composed slice are checked by the oracle."), design="DESIGN.md 5 C06"),
  'C07': dict(text=T("a rejected add_interaction leaves the whole state record unchanged in both modes, continuation, bulk helpers stop exactly before the failing element (C07_atomic, C07_continuation, C07_bulk, C07_bulk_missing_t)."), design="DESIGN.md 5 C07"),
  'C08': dict(text=T("accumulative presence = first accepted add .. largest accepted instant, flattened, ids = accepted instants, stream = one '+' per pair and no '-' (C08_presence, C08_flat, C08_ids, C08_stream), query layer via C02's theorems (C08_queries).",
                      "query-layer findings shared with C02 (self-loop arithmetic, digraph interactions())."), design="DESIGN.md 5 C08"),
  'C09': dict(text=T("rows = one per interaction and present instant, no duplicates (C09_rows); reading the written rows back gives the same class and presence (C09_roundtrip); four-column rows (C09_four_columns); text level: render/parse of a row and of decimals are inverse (C09_text, C09_decimal).",
                      None, "open_file dispatch, gzip/bz2, file objects, byte encodings, string node ids."), design="DESIGN.md 5 C09"),
- 'C10': dict(text=T("rows = the stream in chronological order (C10_write), reader semantics of '+' and '-' (C10_read_plus, C10_read_minus, C10_minus_presence); reading back what was written preserves class and presence for every reachable graph whose runs of >= 2 instants are closed (C10_roundtrip_partial, C10_reachable).",
+ 'C10': dict(text=T("rows = the stream in chronological order (C10_write), reader semantics of '+' and '-' (C10_read_plus, C10_read_minus, C10_minus_presence); reading back what was written never fails and yields THE SAME STREAM, event for event, for every reachable graph (C10_stream_roundtrip_all, C10_roundtrip_log, C10_reachable); it preserves class and presence for every reachable graph whose runs of >= 2 instants are closed (C10_roundtrip_partial, C10_stream_roundtrip).",
                      "round trip refuted for the unclosed two-instant run (C10_roundtrip_refuted, K-C10-1).",
-                     "equality of the re-read STREAM; reader = replay for arbitrary well-formed logs that no graph produced (oracle)."), design="DESIGN.md 5 C10"),
+                     "gzip/bz2/encodings/file objects; reader = replay for arbitrary well-formed logs that no graph produced is proved per pair (C10_reader_per_pair) and checked globally by the oracle."), design="DESIGN.md 5 C10"),
  'C11': dict(text=T("content of node_link_data (C11_data, C11_links), node_link_graph(node_link_data g) has the same class, nodes, attributes and presence (C11_roundtrip), the directed argument is used only when the data does not say (C11_class).",
                      None, "json.dumps/loads, custom attrs['id']."), design="DESIGN.md 5 C11"),
  'C12': dict(text=T("every returned path is non-empty, leaves u, chains, has strictly increasing times inside the window, every hop present, ends in v (C12_sound), no immediate reversal (C12_no_pingpong), every intermediate node has an interaction at each window id between arrival and departure (C12_valid, C12_edges_alive), no duplicates (C12_nodup), improper window (C12_window_error).",
                      None, "tuple type and grouping under (first,last) keys; the '_' string encoding of occurrences."), design="DESIGN.md 5 C12"),
- 'C13': dict(text=T("EXACT characterisation: a hop sequence whose first hop is not a root self-loop is returned iff it satisfies C12's conditions (C13_exact = soundness + C13_complete_partial; C13_dag_complete, C13_search_complete), absent root (C13_absent_root), all_time_respecting_paths = per-node queries (C13_all).",
-                     "first hop = self-loop of the root is missed (C13_complete_refuted, K-C13-1).", "sample<1 (numpy) subset relation."), design="DESIGN.md 5 C13"),
+ 'C13': dict(text=T("EXACT characterisation: a hop sequence whose first hop is not a root self-loop is returned iff it satisfies C12's conditions (C13_exact = soundness + C13_complete_partial; C13_dag_complete, C13_search_complete), absent root (C13_absent_root), all_time_respecting_paths = per-node queries (C13_all); sample<1: for ANY selection of source/target pairs the result is a duplicate-free sub-collection of the full result, errors unchanged, selecting all pairs = the unsampled function (C13_sample_subset, C13_sample_error, C13_sample_all).",
+                     "first hop = self-loop of the root is missed (C13_complete_refuted, K-C13-1).", "which pairs numpy draws (the selection is a parameter of the model)."), design="DESIGN.md 5 C13"),
  'C14': dict(text=T("each class is exactly the set of minimisers (C14_primary, C14_secondary), subset of the input, non-empty, multiplicity kept, metrics (C14_subset, C14_nonempty, C14_primary_filter, C14_metrics)."), design="DESIGN.md 5 C14"),
  'C15': dict(text=T("edge soundness, exact sources, targets, window errors / empty DAG (C15_edge_sound, C15_sources, C15_targets, C15_window).",
                      "acyclicity holds without a root self-loop in the window (C15_acyclic_partial), refuted with one (C15_acyclic_refuted, K-C15-1)."), design="DESIGN.md 5 C15"),
